@@ -49,7 +49,9 @@
                   messages nor commits (so a future height is never reached).  Repaired = a full
                   input drops the message.
      FixReFin     after the stream Fin the loop goes on: a second Fin under the next sequence number
-                  hands the same Proposal out again.  Repaired = the loop ends after the hand-over.
+                  hands the same Proposal out again.  Repaired = a stream that has handed its Proposal
+                  over discards whatever comes later (the loop keeps emptying the input, so that late
+                  duplicates do not fill it).
      SeqWindow    0 = any sequence number is buffered, also one already processed (the out-of-order
                   map is unbounded and keeps stale duplicates); w > 0 = only next < n < next + w is
                   buffered.
@@ -94,7 +96,7 @@ FinPart == [k |-> "Fin"]
 NoMsg == [seq |-> 0, part |-> FinPart]
 
 Fresh == [ex |-> FALSE, started |-> FALSE, sm |-> "Initial", hdr |-> NoHdr, info |-> 0, txs |-> <<>>,
-          prop |-> NoProp, next |-> 0, buf |-> {}, inq |-> <<>>, run |-> "no", reg |-> 0]
+          prop |-> NoProp, next |-> 0, buf |-> {}, inq |-> <<>>, run |-> "no", reg |-> 0, dn |-> FALSE]
 
 -----------------------------------------------------------------------------
 (* THE REFERENCE: what a stream means.  Read the parts in sequence-number order from 0, choosing
@@ -179,7 +181,7 @@ BufAt(x, k) == {e \in x.buf : e.seq = k}
 RECURSIVE Drive(_, _, _)
 Drive(x, m, h) ==
   IF m.part.k = "Fin"
-  THEN IF x.sm = "Fin" THEN [x |-> x, err |-> FALSE, give |-> x.prop]
+  THEN IF x.sm = "Fin" THEN [x |-> [x EXCEPT !.dn = FixReFin], err |-> FALSE, give |-> x.prop]
        ELSE [x |-> x, err |-> TRUE, give |-> NoProp]                  \* "stream does not end with proposal fin"
   ELSE LET r == OnEvent(x, m.part, h) IN
        IF ~r.ok THEN [x |-> r.x, err |-> TRUE, give |-> NoProp]
@@ -188,7 +190,8 @@ Drive(x, m, h) ==
             Drive([r.x EXCEPT !.buf = @ \ {nm}, !.next = @ + 1], nm, h)
 
 Process(x, m, h) ==
-  IF m.seq # x.next /\ Mut # "noorder"
+  IF FixReFin /\ x.dn THEN [x |-> x, err |-> FALSE, give |-> NoProp]      \* handed over: nothing counts any more
+  ELSE IF m.seq # x.next /\ Mut # "noorder"
   THEN IF SeqWindow > 0 /\ (m.seq >= x.next + SeqWindow \/ m.seq < x.next)
        THEN [x |-> x, err |-> FALSE, give |-> NoProp]
        ELSE [x |-> [x EXCEPT !.buf = {e \in @ : e.seq # m.seq} \cup {m}], err |-> FALSE, give |-> NoProp]
@@ -205,9 +208,10 @@ First(s, m) ==
   THEN st' = [st EXCEPT ![s] = x] /\ UNCHANGED <<dmx, blk>>
   ELSE IF m.part.k = "Fin"                                        \* "first message has empty content"
   THEN st' = [st EXCEPT ![s] = x] /\ UNCHANGED <<dmx, blk>>
-  ELSE IF x.sm = "Nil"                                            \* OnEvent on a nil state machine
+  ELSE IF x.sm = "Nil" /\ m.part.k # "Junk"                       \* OnEvent on a nil state machine (content that does
+                                                                  \* not unmarshal is refused before)
   THEN st' = [st EXCEPT ![s] = x] /\ dmx' = "crashed" /\ UNCHANGED blk
-  ELSE LET r == OnEvent(IF Mut = "restart" THEN [x EXCEPT !.sm = "Initial"] ELSE x, m.part, cur) IN
+  ELSE LET r == OnEvent(IF Mut = "restart" THEN [x EXCEPT !.sm = "Initial", !.dn = FALSE] ELSE x, m.part, cur) IN
        IF ~r.ok \/ r.x.sm # "AwaitInfo"
        THEN st' = [st EXCEPT ![s] = r.x] /\ UNCHANGED <<dmx, blk>>
        ELSE LET h == r.x.hdr.h
@@ -264,14 +268,14 @@ StreamStep(s) ==
      ELSE IF r.give = NoProp THEN st' = [st EXCEPT ![s] = r.x] /\ UNCHANGED out
      ELSE IF Len(out) < OutCap
      THEN /\ out' = Append(out, Entry(s, r.give))
-          /\ st' = [st EXCEPT ![s] = [r.x EXCEPT !.run = IF FixReFin THEN "done" ELSE "running"]]
+          /\ st' = [st EXCEPT ![s] = [r.x EXCEPT !.run = "running"]]
      ELSE st' = [st EXCEPT ![s] = [r.x EXCEPT !.run = "sending"]] /\ UNCHANGED out
   /\ UNCHANGED <<script, sent, extra, cur, got, dmx, blk>>
 
 SendDone(s) ==
   /\ st[s].run = "sending" /\ Len(out) < OutCap
   /\ out' = Append(out, Entry(s, st[s].prop))
-  /\ st' = [st EXCEPT ![s].run = IF FixReFin THEN "done" ELSE "running"]
+  /\ st' = [st EXCEPT ![s].run = "running"]
   /\ UNCHANGED <<script, sent, extra, cur, got, dmx, blk>>
 
 Keep(q, p) == IF Len(q) < MaxGot THEN Append(q, p) ELSE q
@@ -286,7 +290,7 @@ DriverTake ==
 DriverTakeFrom(s) ==
   /\ OutCap = 0 /\ st[s].run = "sending"
   /\ got' = [got EXCEPT ![s] = Keep(@, st[s].prop)]
-  /\ st' = [st EXCEPT ![s].run = IF FixReFin THEN "done" ELSE "running"]
+  /\ st' = [st EXCEPT ![s].run = "running"]
   /\ UNCHANGED <<script, sent, extra, cur, out, dmx, blk>>
 
 Next ==
@@ -298,17 +302,19 @@ Next ==
 
 Spec == Init /\ [][Next]_vars
 
-(* fairness for the liveness properties: the network delivers every message at least once, every
-   goroutine runs, the driver reads; commits are the environment's and are not forced *)
+(* fairness for the liveness properties: the network delivers every message at least once (a first
+   delivery lowers the number of undelivered messages, so weak fairness of "some first delivery" is
+   enough and keeps the number of fairness conjuncts small), every goroutine runs, the driver
+   reads; commits are the environment's and are not forced *)
 Fair ==
-  /\ \A s \in Streams : \A j \in 1..10 : WF_vars(j \in DOMAIN script[s] /\ sent[s][j] = 0 /\ DemuxRecv(s, j))
+  /\ WF_vars(\E s \in Streams : \E j \in DOMAIN script[s] : sent[s][j] = 0 /\ DemuxRecv(s, j))
   /\ WF_vars(Unblock) /\ WF_vars(DriverTake)
   /\ \A s \in Streams : WF_vars(StreamStep(s)) /\ WF_vars(SendDone(s)) /\ WF_vars(DriverTakeFrom(s))
 FairSpec == Spec /\ Fair
 
 -----------------------------------------------------------------------------
 (* PROPERTIES *)
-Runs == {"no", "running", "dead", "sending", "done"}
+Runs == {"no", "running", "dead", "sending"}
 TypeOK ==
   /\ cur \in InitHeight..MaxHeight
   /\ dmx \in {"ok", "blocked", "crashed"}
